@@ -167,6 +167,10 @@ func (fst *FSTree) Delete(key string) error {
 	// remove entry
 	err = os.Remove(dstPath)
 	if err != nil {
+		// Deleting a record that does not exist is not an error, as with the other storages.
+		if errors.Is(err, fs.ErrNotExist) {
+			return nil
+		}
 		return fmt.Errorf("fstree: could not delete %s: %w", dstPath, err)
 	}
 
